@@ -86,6 +86,8 @@ SITES = {
                         parent="src/core/primitives.rs", modpath="core::primitives::verif_k6"),
     "serialization_min": dict(file="serialization_min.rs", include=["common.rs"], modname="verif_k7",
                               parent="src/core/serialization/mod.rs", modpath="core::serialization::verif_k7"),
+    "serialization_min2": dict(file="serialization_min2.rs", include=["common.rs"], modname="verif_k8",
+                               parent="src/core/serialization/mod.rs", modpath="core::serialization::verif_k8"),
     "policy_model": dict(file="policy_model.rs", include=["common.rs"], parent="src/abe_policy/access_structure.rs",
                          modpath="abe_policy::access_structure::verif_k"),
 }
@@ -216,6 +218,11 @@ H("k_rekey_chain2_mixed", "keys_model2", ["C06", "C11", "C04"], "quick", unwind=
   desc="rekey from an arbitrary 2-secret chain: the new secret inherits flag and flavour of the FRONT (not of an older "
        "secret); older secrets untouched",
   bounds=KL + "1 right, chain of 2, both activation flags and both flavours symbolic, RNG symbolic", **_k)
+H("k_update_swaps_a_right", "keys_model2", ["C05", "C03", "C11"], "quick", unwind=4,
+  covers=["hybridized right added while a classic one is removed"],
+  desc="update_msk removing one right while adding another in the same update: the right outside the structure is dropped, "
+       "the kept chain is intact, the new right is activated with the hinted flavour",
+  bounds=KL + "2 rights before (chains of 2 and 1), universe = {kept right, new right}; flavours and hint symbolic", **_k)
 H("k_prune_chain2_mixed", "keys_model2", ["C05", "C06"], "quick", unwind=5,
   covers=["front disabled, pruned secret was flagged activated", "front classic, pruned secret was hybridized"],
   desc="prune from an arbitrary state: exactly the front stays with its own flag and flavour; the other right is untouched",
@@ -315,6 +322,16 @@ H("zr_usk_min_read", "serialization_min", ["C13"], "quick", build="model", unwin
   covers=["two different revisions"],
   desc="UserSecretKey::read(W(v)) consumes every byte and returns v: chain order, flavour and value of each revision",
   bounds=_WIRE % "")
+# (zr_xenc_classic_read -- classic, 2 traps, 2 right-encapsulations, 85 bytes -- passed 9.6 GB without finishing in 500 s: DEV)
+H("zr_xenc_classic_read", "serialization_min2", ["DEV"], "quick", build="model", unwind=4, timeout=900, loops=CMP34, desc="dev", bounds="dev")
+H("zr_xenc_hybrid_read", "serialization_min2", ["C13", "C11"], "quick", build="model", unwind=4, timeout=900, loops=CMP34,
+  covers=["reached"],
+  desc="XEnc::read(W(v)) for a hybridized encapsulation consumes every byte and returns v with the hybridized flavour",
+  bounds="explicit wire image: 16-byte tag, 1 trap, hybridized, 1 right-encapsulation (4-byte ideal-KEM encapsulation + 32 bytes); every value symbolic")
+H("zr_header_metadata_read", "serialization_min2", ["C13"], "quick", build="model", unwind=4, timeout=900, loops=CMP34,
+  covers=["reached"],
+  desc="EncryptedHeader::read: an empty metadata vector on the wire reads back as absent metadata, one byte of metadata reads back as that byte; every byte consumed",
+  bounds="explicit wire images over the smallest encapsulation (no trap, no right-encapsulation): tag and metadata byte symbolic")
 # (zw_usk_min_write, zr_msk_min_read, zw_msk_min_write -- the write half and the master-key halves on the same minimal shape --
 # passed 12-22 GB without finishing in 830 s; development entries)
 for _n in ["zw_usk_min_write", "zr_msk_min_read", "zw_msk_min_write"]:
@@ -349,8 +366,8 @@ CHECKS = {
                 outside="failures caused by serialization errors (unreachable), states with >2 rights"),
     "C11": dict(bounds_note="hint algebra tables; flavour through rekey/update/mpk/serialization; encapsulation mode selection",
                 outside="combine() over a structure (policy layer), E_j bound into the tag for hybridized encapsulations"),
-    "C13": dict(bounds_note="read half only, one type, one minimal shape: UserSecretKey::read on the explicit wire image W(v) of a key with one right (empty name) and a chain of 2 revisions (newest classic, oldest hybridized), all secret values symbolic: every byte consumed, chain order / flavour / value of each revision as on the wire",
-                outside="the write half and length() (harness times out), MasterSecretKey (both halves time out), MasterPublicKey, XEnc, headers, AccessStructure / Dimension; ids, tracing points, right names, trailing signature; more than one right, chains > 2; use of a deserialized key in later operations; bytes of the pinned release beyond the layout W spelled out in the harness"),
+    "C13": dict(bounds_note="read halves only, minimal shapes, against explicit wire images W(v): UserSecretKey (one right with the empty name, chain of 2 revisions: newest classic, oldest hybridized), XEnc (hybridized, 1 trap, 1 right-encapsulation), EncryptedHeader (empty metadata vector = absent metadata; 1 byte of metadata) -- every byte consumed, every field, order and flavour as on the wire; all values symbolic",
+                outside="every write half and length() (harnesses time out), MasterSecretKey and MasterPublicKey (time out), classic XEnc with 2 right-encapsulations (times out), CleartextHeader, AccessStructure / Dimension; ids, tracing points, right names, trailing signature; more than one right, chains > 2; use of a deserialized key in later operations; bytes of the pinned release beyond the layouts W spelled out in the harnesses"),
     "C14": dict(bounds_note="UserId / TracingPublicKey parsers on every byte string <= 6 bytes; accessors and decaps on degenerate parsed values; revision iterator on a key without chains",
                 outside="XEnc / USK parsers beyond the thorough-tier lengths, MPK/MSK/AccessStructure/EncryptedHeader parsers, read_vec's vec![0; len] in the dependency, wall-clock/RSS of a real process"),
     "C15": dict(bounds_note="find_matching_closing_parenthesis on all UTF-8 strings <= 4 bytes",
